@@ -218,6 +218,8 @@ def run_inside(ctx):
         # named cores with sharp ridges next to nearly flat facets (only the complete point sets)
         f3 = ex.submit(cd.emit, ctx, "Blade", 7, minpts=7, rnd=True)
         f4 = ex.submit(cd.emit, ctx, "Slab", 9, minpts=9, rnd=True)
+        f5 = ex.submit(cd.emit, ctx, "Ridge", 8, minpts=8, rnd=True)
+        ridge = [r for r in f5.result() if len(r["v"]) == 8]
         grecs = f1.result() + f2.result() + [r for r in f3.result() if len(r["v"]) == 7] + [r for r in f4.result() if len(r["v"]) == 9]
     gcases = []
     for r in grecs:
@@ -226,6 +228,11 @@ def run_inside(ctx):
         gcases.append({"rec": r, "pl": pal[k % len(pal)].to_json(), "radii": [[1, 2], [3, 2], [3, 1]]})
         if len(r["v"]) in (7, 9) and r["v"][0][2] == 0:
             gcases.append({"rec": r, "pl": pal[0].to_json(), "radii": [[1, 1], [2, 1], [7, 2]]})
+    for r in ridge:
+        # radii comparable to the length of the sharp stretch of the ridge (the lattice is a quarter of the unit there)
+        pal = palette(7, ctx.tier)
+        for pl in (pal[0], pal[1 + h(r["v"], ctx.seed) % (len(pal) - 1)]):
+            gcases.append({"rec": r, "pl": pl.to_json(), "radii": [[5, 4], [9, 4], [7, 2]]})
     for case, (mism, st) in zip(gcases, pmap(eval_round_inside, gcases)):
         ctx.case(("roundcore", json.dumps(case["rec"]["v"]), json.dumps(case["pl"])), nontrivial=True,
                  sample={"core_vertices": case["rec"]["v"], "radii": case["radii"], "placement": case["pl"],
